@@ -432,7 +432,7 @@ def run(project: Project, rep, tier: str):
     for (owner, name), none_sites, truthy_sites in bad:
         fi_, node_ = truthy_sites[0]
         rep.refuted("GL-DEFAULT", fi_, node_,
-                    f"`{name}` is compared with None at {none_sites[0][0].loc(none_sites[0][1])} (None = not given) but "
+                    f"`{name}` uses None as 'not given' ({none_sites[0][0].loc(none_sites[0][1])}) but is "
                     f"truth-tested here (`{ast.unparse(node_)}`): an explicitly requested value 0 is treated as not given and "
                     f"replaced by the default, so the values are sampled on a different grid than the one requested",
                     construct=f"{owner}: truth test of {name}")
